@@ -253,8 +253,17 @@ def check(c):
             body = c.idx.parent[id(st)]
             nxt = getattr(body, 'body', [])
             i = next((k for k, s in enumerate(nxt) if s is st), None)
-            ok = i is not None and i + 1 < len(nxt) and isinstance(
-                nxt[i + 1], ast.Break)
+            # a `break` follows in the same block (statements in between,
+            # e.g. logging, are fine as long as they are straight-line)
+            ok = False
+            if i is not None:
+                for s in nxt[i + 1:]:
+                    if isinstance(s, ast.Break):
+                        ok = True
+                        break
+                    if not isinstance(s, (ast.Expr, ast.Assign,
+                                          ast.AnnAssign, ast.AugAssign)):
+                        break
             c.ob('C47.last-defined', c.key(n, pf) + ' stops at the first '
                  '(last-defined) matching group', ok, c.where(n, pf), '')
 
